@@ -484,6 +484,10 @@ class Check:
     for fid, h in sorted(self.hit.items()):
       out_lines.append("KNOWN-FINDING: property=%s %s [%s; %d case(s) this run]" %
                        (self.pid, h["finding"]["what"], fid, h["count"]))
+    if os.path.isdir(rdir):
+      for fn in os.listdir(rdir):
+        if fn.startswith("%s_%s_" % (self.pid, self.tier)):
+          os.remove(os.path.join(rdir, fn))
     if self.violations:
       os.makedirs(rdir, exist_ok=True)
       seen = {}
